@@ -51,6 +51,10 @@ def cvxRelativeEntropy (log : K → K) (eps : K) (ratios : List K) (ps qs : List
 def plainSquaredError (ps qs : List (List K)) : K :=
   lsum ((ps.zip qs).map fun pq => sqErr pq.1 pq.2)
 
+/-- identity-weight relative entropy of the projected-gradient estimators, in the same shape: `Σ_i Σ_{j : q_ij > eps} …` -/
+def plainRelativeEntropy (log : K → K) (eps : K) (ps qs : List (List K)) : K :=
+  lsum ((ps.zip qs).map fun pq => relEnt log eps pq.1 pq.2)
+
 end cvx
 
 /-! ## driver -/
